@@ -660,72 +660,62 @@ func main() {
 	cases = append(cases, repoVectorCases()...)
 	ncorpus := len(cases)
 	g := r.Rng
-	gen := newGen(g)
+	tables := newGen(g)
+	// Work is cut into shards; every shard owns a PRNG forked (in a fixed order) from the one seeded
+	// PRNG, generates its cases and runs them, so the run is deterministic and generation is parallel.
+	type shard struct {
+		kind   string
+		oracle bool
+		n      int
+		rng    *vlib.Rng
+	}
+	var shards []shard
+	add := func(kind string, oracle bool, total, chunk int) {
+		for off := 0; off < total; off += chunk {
+			n := chunk
+			if total-off < n {
+				n = total - off
+			}
+			shards = append(shards, shard{kind, oracle, n, g.Fork()})
+		}
+	}
 	// oracle-checked (expensive: the Lean reference does ≈40 ms per scalar multiplication)
-	for i := 0; i < r.N(90, 2000); i++ {
-		cases = append(cases, gen.ecdsa(true))
-	}
-	for i := 0; i < r.N(60, 1200); i++ {
-		cases = append(cases, gen.schnorr(true))
-	}
-	for i := 0; i < r.N(60, 1200); i++ {
-		cases = append(cases, gen.tweak(true))
-	}
-	for i := 0; i < r.N(14, 400); i++ {
-		cases = append(cases, gen.sign(true))
-	}
-	for i := 0; i < r.N(10, 200); i++ {
-		cases = append(cases, gen.signRfc(true))
-	}
-	for i := 0; i < r.N(6, 100); i++ {
-		cases = append(cases, gen.signRnd(true))
-	}
-	for i := 0; i < r.N(8, 200); i++ {
-		cases = append(cases, gen.ssign(true))
-	}
-	for i := 0; i < r.N(200, 5000); i++ {
-		cases = append(cases, gen.pub(true))
-	}
-	for i := 0; i < r.N(800, 15000); i++ {
-		cases = append(cases, gen.psig(true))
-	}
-	for i := 0; i < r.N(60, 600); i++ {
-		cases = append(cases, gen.nonce(true))
-	}
-	for i := 0; i < r.N(60, 600); i++ {
-		cases = append(cases, gen.hmac(true))
-	}
+	add("ecdsa", true, r.N(90, 2000), 10)
+	add("schnorr", true, r.N(60, 1200), 10)
+	add("tweak", true, r.N(60, 1200), 10)
+	add("sign", true, r.N(14, 400), 4)
+	add("signrfc", true, r.N(10, 200), 5)
+	add("signrnd", true, r.N(6, 100), 3)
+	add("ssign", true, r.N(8, 200), 2)
+	add("pub", true, r.N(200, 5000), 50)
+	add("psig", true, r.N(800, 15000), 200)
+	add("nonce", true, r.N(60, 600), 20)
+	add("hmac", true, r.N(60, 600), 20)
 	// real vs reference only (cheap): the property's own predicate on many more inputs
-	for i := 0; i < r.N(2000, 60000); i++ {
-		cases = append(cases, gen.ecdsa(false))
+	add("ecdsa", false, r.N(2000, 30000), 250)
+	add("schnorr", false, r.N(1200, 20000), 200)
+	add("tweak", false, r.N(1200, 20000), 200)
+	add("sign", false, r.N(100, 3000), 50)
+	add("signrfc", false, r.N(100, 1500), 50)
+	add("signrnd", false, r.N(100, 1500), 50)
+	add("ssign", false, r.N(100, 1500), 50)
+	for i := 0; i < 6 && i < len(cases); i++ {
+		r.Sample(cases[(i*7)%len(cases)])
 	}
-	for i := 0; i < r.N(1200, 40000); i++ {
-		cases = append(cases, gen.schnorr(false))
-	}
-	for i := 0; i < r.N(1200, 40000); i++ {
-		cases = append(cases, gen.tweak(false))
-	}
-	for i := 0; i < r.N(100, 3000); i++ {
-		cases = append(cases, gen.sign(false))
-	}
-	for i := 0; i < r.N(100, 1500); i++ {
-		cases = append(cases, gen.signRfc(false))
-	}
-	for i := 0; i < r.N(100, 1500); i++ {
-		cases = append(cases, gen.signRnd(false))
-	}
-	for i := 0; i < r.N(100, 1500); i++ {
-		cases = append(cases, gen.ssign(false))
-	}
-	for i := 0; i < 12 && i < len(cases); i++ {
-		r.Sample(cases[(i*7919)%len(cases)])
+	sg := tables.with(g.Fork())
+	for _, k := range []string{"ecdsa", "schnorr", "tweak", "sign", "ssign", "psig"} {
+		r.Sample(sg.make(k, true))
 	}
 
 	workers := 12
 	if r.Thorough() {
 		workers = 15
 	}
-	ch := make(chan Case, 256)
+	type work struct {
+		c  *Case
+		sh *shard
+	}
+	ch := make(chan work, 256)
 	var wg sync.WaitGroup
 	for w := 0; w < workers; w++ {
 		o, err := vlib.StartOracle("c03")
@@ -736,14 +726,24 @@ func main() {
 		wg.Add(1)
 		go func(o *vlib.Oracle) {
 			defer wg.Done()
-			for c := range ch {
-				x.runCase(c, o)
+			for wk := range ch {
+				if wk.c != nil {
+					x.runCase(*wk.c, o)
+					continue
+				}
+				ge := tables.with(wk.sh.rng)
+				for i := 0; i < wk.sh.n; i++ {
+					x.runCase(ge.make(wk.sh.kind, wk.sh.oracle), o)
+				}
 			}
 			o.Close()
 		}(o)
 	}
-	for _, c := range cases {
-		ch <- c
+	for i := range cases {
+		ch <- work{c: &cases[i]}
+	}
+	for i := range shards {
+		ch <- work{sh: &shards[i]}
 	}
 	close(ch)
 	wg.Wait()
